@@ -106,6 +106,16 @@ def check_state(system, hist, stats):
     if o1 != o2:
         V('copy_not_equal', 'deep copy differs from the original', observed=refgraph._d(o1, o2))
         return viols
+    # 'the same serialized content': the dict form itself, including the order of lists in it
+    try:
+        d1, d2 = orig._to_dict(), cp._to_dict()
+        if json.dumps(d1, sort_keys=True, default=repr) != json.dumps(d2, sort_keys=True, default=repr):
+            a = json.loads(json.dumps(d1, sort_keys=True, default=repr))
+            b = json.loads(json.dumps(d2, sort_keys=True, default=repr))
+            V('copy_serialization_differs', 'the serialized form of the copy differs from the original (e.g. the order of a list)',
+              observed=refgraph._d(a, b))
+    except Exception as e:  # noqa: BLE001
+        V(f'copy_serialization_raised:{type(e).__name__}', str(e))
     if counters(orig) != counters(cp):
         V('copy_counters_differ', 'id counters of the copy differ', expected=counters(orig), observed=counters(cp))
     if cp.model is not orig.model or cp.lang_graph is not orig.lang_graph:
